@@ -157,9 +157,9 @@ def case_schedule_wrap(spec, cov, out):
     L = len(sched)
     total = min(spec.get("max_episodes", 2 * L), L + spec.get("extra", L))
     acts = [0 if rnd.random() < 0.3 else rnd.randrange(60) for _ in range(spec["steps"])]
-    # fixed wall clock: frame sizes (hence traffic byte counts) include a serialised timestamp whose length varies with the microsecond digits
+    # real wall clock and real entropy: since the repository fix of Frame.size neither may show up in any compared quantity
     res = traj.run_child({"src": src, "seed": spec["seed"], "keep_obs": True, "keep_state": True, "same_seed_each_episode": True,
-                          "actions": [acts] * total, "arm": {"clock": "fixed0"}}, hashseed=0)
+                          "actions": [acts] * total}, hashseed=0)
     if "error" in res:
         return {"harness_error": f"schedule run failed: {res['error'][-300:]}"}
     def blur(x, under=False):
@@ -172,9 +172,10 @@ def case_schedule_wrap(spec, cov, out):
             return x > 0
         return x
 
-    for st in res["steps"]:
-        if "<simulation-state>" in st[4]:
-            st[4]["<simulation-state>"] = blur(st[4]["<simulation-state>"])
+    if spec.get("blur"):  # (needed before the repository fix that made frame sizes independent of clock and ICMP identifier)
+        for st in res["steps"]:
+            if "<simulation-state>" in st[4]:
+                st[4]["<simulation-state>"] = blur(st[4]["<simulation-state>"])
     # PrimaiteGymEnv builds entry 0 in its constructor and advances on every reset: trajectory episode e runs entry (e + 1) mod L
     by_entry = {}
     for e in range(total):
